@@ -24,7 +24,7 @@ func init() {
 		Rule: "seeded part: one run = one valid configuration, twin A with injected per-call bank failures (single calls, bursts, persistent per destination, failing burns) in the first blocks " +
 			"followed by a fault-free suffix of len(sub-distributors)+3 blocks, twin B fault-free; enumeration part (thorough): for a set of base scenarios, every single bank-call position of the first blocks is failed once. " +
 			"non-trivial = at least one injected failure actually fired on a call that moved coins in twin B; distinct = hash of configuration shape, kinds of calls failed and outcome",
-		Quick:      Tier{Runs: 400, BudgetSec: 50},
+		Quick:      Tier{Runs: 1000, BudgetSec: 50},
 		Thorough:   Tier{Runs: 20000, BudgetSec: 700},
 		RunSeed:    c14RunSeed,
 		Replay:     c14Replay,
